@@ -11,3 +11,6 @@ let desc = { fresh = ag_fresh; decode = ag_decode_into; serialize = Some ag_seri
   next = (fun _ l -> "t" ^ i (ag_next l)); render_panics = ag_render_panics; of_spec; junk_len = 400 }
 let run id ops out = run_generic desc id ops out
 let registered = Registry.register "Lague" run
+let coq_layer (l : ague) = Printf.sprintf "(mkAg %s %s %s %s %s %s)" (coq_z l.ag_version) (coq_bool l.ag_c) (coq_z l.ag_proto) (coq_z l.ag_flags) (coq_zlist l.ag_ext) (coq_zlist l.ag_data)
+let registered_coq = Registry.register_coq "Lague" ("From GP Require Import Base LagueModel.\n",
+  Lsmallutil.to_coq_generic { Lsmallutil.cd = desc; coq_layer; g_dec = "ag_decode_into"; g_fresh = "ag_fresh"; g_ser = "ag_serialize"; g_rp = "ag_render_panics" })
